@@ -289,6 +289,23 @@ pub fn continue_after_fatal(sv: &Value, max: &Value, inputs: &Value, k: usize) -
                 }
             }
         }
+        // every input the state was built with is still bound in the state that came out of the abort
+        if let Some(names) = inputs.as_object() {
+            for name in names.keys() {
+                let ins = PushInstruction::InputVar(push::instruction::variable_name::VariableName::from(name.as_str()));
+                let probe = |st: &PushState| -> String {
+                    match guarded(|| ins.perform(st.clone())) {
+                        Ok(Ok(s2)) => format!("ok {:?}", stacks_to_json(&s2).map(|v| v.to_string())),
+                        Ok(Err(e)) => format!("error {:?}", err_json(e.error())),
+                        Err(m) => format!("panic: {m}"),
+                    }
+                };
+                let (a, b) = (probe(&aborted), probe(&fresh));
+                if a != b {
+                    return Some(format!("input `{name}` performed on the state handed back by the fatal error: {a}; on the same state built afresh: {b}"));
+                }
+            }
+        }
         let continued = show(aborted.run_to_completion(), &before);
         let rebuilt = show(fresh.run_to_completion(), "");
         (continued != rebuilt).then(|| format!("continued: {continued}; the same state built afresh: {rebuilt}"))
